@@ -321,8 +321,13 @@ def canvas_validate(pid, v, scs, name, count_tags, workers=12, timeout=3000, onl
 def repo_test_scenarios(pid, v):
     """Executions recorded from the repository's own unit tests (API tracer), converted to canvas scenarios."""
     from . import testtrace
-    tdir = testtrace.record(pid)
-    scs, st = testtrace.convert(tdir)
+    try:
+        tdir = testtrace.record(pid)
+        scs, st = testtrace.convert(tdir)
+    except Exception as e:      # recording is an extra source of executions: its failure must not mask the check's own verdicts
+        log("[%s] WARNING: the repository's unit tests could not be recorded (%s); continuing without them" % (pid, str(e)[:300]))
+        v.extra["repo_tests_recorded"] = {"error": str(e)[:500]}
+        return []
     v.extra["repo_tests_recorded"] = st
     v.assumptions.append("recorded executions of the repository's unit tests (src/verif_trace.rs hooks) are replayed by the harness, which must "
                          "reproduce every recorded pixel state, and validated like generated scenarios")
